@@ -1,4 +1,5 @@
 import CssVerif.Model.Codec
+import CssVerif.Model.CodecInc
 open CssVerif.Proto CssVerif.Codec
 
 def showEnc : Enc → String
@@ -9,6 +10,25 @@ def showEnc : Enc → String
 def showAns : Option (Enc × Bool) → String
   | none => "NONE"
   | some (e, x) => showEnc e ++ (if x then " 1" else " 0")
+
+/-- identity inner codec: the harness only uses it with ASCII data and ASCII-compatible encodings -/
+def idInner : Inner := ⟨fun _ b _ => b, fun _ a b _ => ⟨b, rfl⟩, fun _ => rfl⟩
+
+def showSt : DSt → String
+  | .waiting _ _ b => "W:" ++ encCps b
+  | .decoding e _ t => "D:" ++ encCps e ++ ":" ++ encCps t
+  | .streaming e _ => "S:" ++ encCps e
+
+/-- `incdec given force chunk…`: per-chunk outputs, final output, state before the final call -/
+def incdec (given : Option Name) (force : Bool) (chunks : List (List Nat)) : String :=
+  let rec go (s : DSt) (cs : List (List Nat)) (acc : List String) : DSt × List String :=
+    match cs with
+    | [] => (s, acc.reverse)
+    | c :: cs => let r := step idInner s c false; go r.1 cs (encCps r.2 :: acc)
+  let r := go (.waiting given force []) chunks []
+  let fin := step idInner r.1 [] true
+  " ".intercalate r.2 ++ " | " ++ encCps fin.2 ++ " | " ++ showSt r.1 ++ " | " ++
+    encCps (oneShot idInner given force chunks.flatten)
 
 def handle (line : String) : String :=
   match words line with
@@ -22,6 +42,11 @@ def handle (line : String) : String :=
       | some e, some l => match fixEncoding l e (f == "1") with
           | some r => "OK " ++ encCps r
           | none => "NONE"
+      | _, _ => "bad-op"
+  | "incdec" :: g :: f :: chunks =>
+      let given := if g == "none" then some none else (decCps g).map some
+      match given, chunks.mapM decCps with
+      | some given, some cs => incdec given (f == "1") cs
       | _, _ => "bad-op"
   | _ => "bad-op"
 
